@@ -57,8 +57,20 @@ def optNatText (s : String) : Option (Option Nat) :=
 def natText : Option Nat → String
   | none => "-" | some n => toString n
 
+/-- the Name element (type 7, whole TLV) a packet starts with: what `pkt.Name.Bytes()` must be -/
+def nameOf (w : Bytes) : Bytes :=
+  match decTL w with
+  | some (_, r1) => match decTL r1 with
+    | some (_, inner) => match decTL inner with
+      | some (7, r2) => match decTL r2 with
+        | some (l, v) => encTL 7 ++ encTL l ++ v.take l
+        | none => []
+      | _ => []
+    | none => []
+  | none => []
+
 def renderText (w tok : Bytes) (mark : Option Nat) : String :=
-  s!"{hexOfBytes w}/{hexOrDash tok}/{natText mark}"
+  s!"{hexOfBytes w}/{hexOrDash tok}/{natText mark}/{hexOrDash (nameOf w)}"
 
 def threadsText (ts : List Nat) : String := ",".intercalate (ts.map toString)
 
@@ -68,13 +80,23 @@ def deliveryText (w tok : Bytes) (mark : Option Nat) (threads : List Nat) : Stri
 def parseThreads (s : String) : Option (List Nat) :=
   if s.isEmpty then some [] else (s.splitOn ",").mapM String.toNat?
 
-/-- "d=<pkt>/<tok>/<mark>@<threads>" → the delivery and the threads it was queued to (call order) -/
+/-- the name rendered with a delivery ("d=<pkt>/<tok>/<mark>/<name>@..." or a held rendering) agrees with the
+    name inside the delivered bytes -/
+def nameAgrees (rendering : String) : Bool :=
+  match (((rendering.splitOn "@").headD "").splitOn "/") with
+  | [w, _, _, name] =>
+    match bytesOfHex w with
+    | some w => name == hexOrDash (nameOf w)
+    | none => true
+  | _ => true
+
+/-- "d=<pkt>/<tok>/<mark>/<name>@<threads>" → the delivery and the threads it was queued to (call order) -/
 def parseDelivery (s : String) : Option (Delivery × List Nat) :=
   if !s.startsWith "d=" then none else
   match ((s.drop 2).toString).splitOn "@" with
   | [body, ths] =>
     match body.splitOn "/", parseThreads ths with
-    | [w, t, m], some ths =>
+    | [w, t, m, _name], some ths =>
       match bytesOfHex w, (if t == "-" then some [] else bytesOfHex t), optNatText m with
       | some w, some t, some m => some (⟨w, t, m⟩, ths)
       | _, _, _ => none
@@ -82,6 +104,73 @@ def parseDelivery (s : String) : Option (Delivery × List Nat) :=
   | _ => none
 
 def bool01 (s : String) : Bool := s == "1"
+
+/-- one arrival at the receiver (an LP frame of a message, or a bare packet): model replay and the
+    specification on the implementation's own output -/
+def rxCommon (d : DSt) (crash : List SpecFail) (got : String) (id : String) (info : MsgInfo)
+    (frame : Bytes) (sentView : Sent) (want0 : List Delivery) (judge0 dup : Bool) (descr : String)
+    (handed' : List Nat) : StepResult DSt :=
+    -- ---------- model
+    let r := handleFrame d.reasm outerOk d.store frame
+    let mthreads := match r.2 with
+      | .drop => []
+      | .deliver x => dispatchThreads d.nThreads x.wire x.token info.hn info.hp
+    let heldModel' := match r.2 with
+      | .drop => d.heldModel
+      | .deliver x => if mthreads.isEmpty then d.heldModel else d.heldModel ++ [renderText x.wire x.token x.mark]
+    let (expected, cov) : Option String × List String := match r.2 with
+      | .drop => (some s!"ps={r.1.length}", [if r.1.length > d.store.length then "rx-store-new" else if r.1.length > 0 ∧ info.frames.length > 1 then "rx-store-more" else "rx-drop"])
+      | .deliver x =>
+        if mthreads.isEmpty then (some s!"ps={r.1.length}", ["rx-dispatch-drop"]) else
+        (some s!"ps={r.1.length} {deliveryText x.wire x.token x.mark mthreads} st={heldDigest heldModel'}",
+                       [if info.frames.length > 1 then "rx-deliver-reassembled" else "rx-deliver-single"] ++
+                       [if mthreads.length > 1 then "rx-dispatch-several-threads" else "rx-dispatch-one-thread"] ++
+                       (if info.frames.length > 1 && !d.heldModel.isEmpty then ["rx-deliver-while-holding-earlier"] else []))
+    -- ---------- specification on the implementation's deliveries
+    let judge := judge0
+    let toks := (got.splitOn " ").filter (· ≠ "")
+    let idelT : List (Option (Delivery × List Nat)) := (toks.filter (·.startsWith "d=")).map parseDelivery
+    let wantThreads := destThreads d.nThreads sentView info.hn info.hp
+    let want := if wantThreads.isEmpty then [] else want0
+    let fails : List SpecFail :=
+      if !judge || !got.startsWith "ps=" then [] else
+      if idelT.any Option.isNone then [⟨"delivered-exactly-once", "unparsable", got.take 80 |>.toString⟩] else
+      let idelT := idelT.filterMap (fun x => x)
+      let idel := idelT.map (·.1)
+      if idel = want then
+        -- the right packet(s): each must have been queued exactly once to every destination thread
+        (idelT.filter (fun x => !threadsOk wantThreads x.2)).map fun x =>
+          ⟨"delivered-exactly-once",
+           (if x.2.any (fun t => x.2.count t > 1) then "twice-to-a-thread" else "wrong-threads"),
+           s!"message {id}: queued to forwarding thread(s) {x.2}, the dispatch rule gives {wantThreads} (each exactly once)"⟩
+      else
+      match want, idel with
+      | [w], [] => [⟨"delivered-exactly-once", "missing", s!"all {info.frames.length} frame(s) of message {id} ({w.wire.length}B) have arrived, nothing was delivered"⟩]
+      | [], x :: _ => [⟨"delivered-exactly-once", "unexpected", s!"message {id}: a {x.wire.length}B packet was delivered before all frames arrived / a second time"⟩]
+      | [w], [x] => [⟨"delivered-exactly-once",
+                      (if x.wire ≠ w.wire then "wrong-bytes" else if x.token ≠ w.token then "wrong-token" else "wrong-mark"),
+                      s!"message {id}: delivered {x.wire.length}B token={hexOrDash x.token} mark={natText x.mark}, sent {w.wire.length}B token={hexOrDash w.token} mark={natText w.mark}"⟩]
+      | _, _ => [⟨"delivered-exactly-once", "count", s!"message {id}: {idel.length} distinct packets delivered at one arrival"⟩]
+    -- delivered packets must keep their bytes while the forwarder holds them: the harness retains
+    -- every delivered packet uncopied and re-renders all of them (digest `st`) at each delivery
+    let newImpl := (toks.filter (·.startsWith "d=")).map (fun t => (((t.drop 2).toString).splitOn "@").headD "")
+    let heldImpl' := d.heldImpl ++ newImpl
+    let stable : List SpecFail :=
+      match toks.find? (·.startsWith "st=") with
+      | some t =>
+        if (t.drop 3).toString == heldDigest heldImpl' then [] else
+          [⟨"delivered-bytes-stable", "changed-after-delivery",
+            s!"after the delivery at '{descr}' a packet delivered EARLIER in this history (of {d.heldImpl.length}) no longer has the bytes / token / mark it was delivered with"⟩]
+      | none => []
+    let nameBad : List SpecFail :=
+      if newImpl.all nameAgrees then [] else
+        [⟨"delivered-bytes-stable", "name-not-of-packet",
+          s!"'{descr}': the name handed to the forwarder with the packet (pkt.Name of the decoded L3) is not the name inside the delivered bytes"⟩]
+    let info' := { info with handed := handed' }
+    { st := { d with store := r.1, msgs := info' :: d.msgs.filter (·.id ≠ id), judgeRx := d.judgeRx && !dup,
+                     heldModel := heldModel', heldImpl := heldImpl' },
+      expected := expected, spec := crash ++ fails ++ stable ++ nameBad, cov := cov ++ (if dup then ["rx-duplicate"] else []) }
+
 
 def stepC10 (d : DSt) (op : String) (got : String) : StepResult DSt :=
   let crash : List SpecFail := if isCrash got then [⟨"no-crash", "crash", s!"{op.take 60}: {got}"⟩] else []
@@ -173,64 +262,20 @@ def stepC10 (d : DSt) (op : String) (got : String) : StepResult DSt :=
       match info.frames[i]? with
       | none => { st := d, expected := some "skip" }
       | some frame =>
-        -- ---------- model
-        let r := handleFrame d.reasm outerOk d.store frame
-        let mthreads := match r.2 with
-          | .drop => []
-          | .deliver x => dispatchThreads d.nThreads x.wire x.token info.hn info.hp
-        let heldModel' := match r.2 with
-          | .drop => d.heldModel
-          | .deliver x => if mthreads.isEmpty then d.heldModel else d.heldModel ++ [renderText x.wire x.token x.mark]
-        let (expected, cov) : Option String × List String := match r.2 with
-          | .drop => (some s!"ps={r.1.length}", [if r.1.length > d.store.length then "rx-store-new" else if r.1.length > 0 ∧ info.frames.length > 1 then "rx-store-more" else "rx-drop"])
-          | .deliver x =>
-            if mthreads.isEmpty then (some s!"ps={r.1.length}", ["rx-dispatch-drop"]) else
-            (some s!"ps={r.1.length} {deliveryText x.wire x.token x.mark mthreads} st={heldDigest heldModel'}",
-                           [if info.frames.length > 1 then "rx-deliver-reassembled" else "rx-deliver-single"] ++
-                           [if mthreads.length > 1 then "rx-dispatch-several-threads" else "rx-dispatch-one-thread"] ++
-                           (if info.frames.length > 1 && !d.heldModel.isEmpty then ["rx-deliver-while-holding-earlier"] else []))
-        -- ---------- specification on the implementation's deliveries
         let dup := info.handed.contains i
-        let judge := d.judgeRx && info.judged && !dup
-        let toks := (got.splitOn " ").filter (· ≠ "")
-        let idelT : List (Option (Delivery × List Nat)) := (toks.filter (·.startsWith "d=")).map parseDelivery
-        let wantThreads := destThreads d.nThreads info.sent info.hn info.hp
-        let want := if wantThreads.isEmpty then [] else expectedAt info.sent info.frames.length info.handed i
-        let fails : List SpecFail :=
-          if !judge || !got.startsWith "ps=" then [] else
-          if idelT.any Option.isNone then [⟨"delivered-exactly-once", "unparsable", got.take 80 |>.toString⟩] else
-          let idelT := idelT.filterMap (fun x => x)
-          let idel := idelT.map (·.1)
-          if idel = want then
-            -- the right packet(s): each must have been queued exactly once to every destination thread
-            (idelT.filter (fun x => !threadsOk wantThreads x.2)).map fun x =>
-              ⟨"delivered-exactly-once",
-               (if x.2.any (fun t => x.2.count t > 1) then "twice-to-a-thread" else "wrong-threads"),
-               s!"message {id}: queued to forwarding thread(s) {x.2}, the dispatch rule gives {wantThreads} (each exactly once)"⟩
-          else
-          match want, idel with
-          | [w], [] => [⟨"delivered-exactly-once", "missing", s!"all {info.frames.length} frame(s) of message {id} ({w.wire.length}B) have arrived, nothing was delivered"⟩]
-          | [], x :: _ => [⟨"delivered-exactly-once", "unexpected", s!"message {id}: a {x.wire.length}B packet was delivered before all frames arrived / a second time"⟩]
-          | [w], [x] => [⟨"delivered-exactly-once",
-                          (if x.wire ≠ w.wire then "wrong-bytes" else if x.token ≠ w.token then "wrong-token" else "wrong-mark"),
-                          s!"message {id}: delivered {x.wire.length}B token={hexOrDash x.token} mark={natText x.mark}, sent {w.wire.length}B token={hexOrDash w.token} mark={natText w.mark}"⟩]
-          | _, _ => [⟨"delivered-exactly-once", "count", s!"message {id}: {idel.length} distinct packets delivered at one arrival"⟩]
-        -- delivered packets must keep their bytes while the forwarder holds them: the harness retains
-        -- every delivered packet uncopied and re-renders all of them (digest `st`) at each delivery
-        let newImpl := (toks.filter (·.startsWith "d=")).map (fun t => (((t.drop 2).toString).splitOn "@").headD "")
-        let heldImpl' := d.heldImpl ++ newImpl
-        let stable : List SpecFail :=
-          match toks.find? (·.startsWith "st=") with
-          | some t =>
-            if (t.drop 3).toString == heldDigest heldImpl' then [] else
-              [⟨"delivered-bytes-stable", "changed-after-delivery",
-                s!"after the delivery at 'rx {id} {i}' a packet delivered EARLIER in this history (of {d.heldImpl.length}) no longer has the bytes / token / mark it was delivered with"⟩]
-          | none => []
-        let info' := { info with handed := i :: info.handed }
-        { st := { d with store := r.1, msgs := info' :: d.msgs.filter (·.id ≠ id), judgeRx := d.judgeRx && !dup,
-                         heldModel := heldModel', heldImpl := heldImpl' },
-          expected := expected, spec := crash ++ fails ++ stable, cov := cov ++ (if dup then ["rx-duplicate"] else []) }
+        rxCommon d crash got id info frame info.sent
+          (expectedAt info.sent info.frames.length info.handed i)
+          (d.judgeRx && info.judged && !dup) dup s!"rx {id} {i}" (i :: info.handed)
     | _, _ => { st := d, expected := some "skip" }
+  | ["rxb", id] =>
+    -- the packet itself arrives bare (no LpPacket): delivered as it is, without token and mark
+    if !d.active then { st := d, expected := some "skip" } else
+    match d.msgs.find? (·.id = id) with
+    | some info =>
+      let bare : Sent := { wire := info.sent.wire }
+      rxCommon d crash got id info info.sent.wire bare [bare.delivery]
+        (d.judgeRx && bare.admissible && outerOk bare.wire) false s!"rxb {id}" info.handed
+    | none => { st := d, expected := some "skip" }
   | ["end"] =>
     if !d.active then { st := d, expected := some "skip" } else
     let toks := (got.splitOn " ").filter (· ≠ "")
